@@ -71,12 +71,12 @@ Step ==
        /\ st' = s2
        /\ hist' = [hist EXCEPT !.ops = Append(@, o), !.preds = Append(@, Out(s2)), !.n = @ + 1]
        /\ viol' = {v \in Viol(st, o, s2, ViewOf(st.d), ViewOf(s2.d), Repos) : Strict \/ ~Known(v)}
-       /\ (Emit = "bfs" => PrintT(<<"SCRIPT", ToJson([ops |-> hist'.ops, preds |-> <<Out(s2)>>])>>))
+       /\ (Emit = "bfs" => PrintT(<<"SCRIPT", ToJson([ops |-> hist'.ops, preds |-> <<Out(s2)>>, n |-> hist'.n])>>))
 
 \* end of a walk: print the whole history once
 Stop ==
   /\ hist.n = MaxDepth /\ ~hist.done /\ Emit = "sim"
-  /\ PrintT(<<"SCRIPT", ToJson([ops |-> hist.ops, preds |-> hist.preds])>>)
+  /\ PrintT(<<"SCRIPT", ToJson([ops |-> hist.ops, preds |-> hist.preds, n |-> hist.n])>>)
   /\ hist' = [hist EXCEPT !.done = TRUE] /\ UNCHANGED <<st, viol>>
 
 Next == Step \/ Stop
